@@ -15,7 +15,7 @@ RULE = ("(a) every key of the element table (except stack-shuffling / IO entries
         "structural snapshot of every argument is taken before the call (lazy lists through a copy) and compared after it, also when the element "
         "raises; (b) programs <list value> <copy-op> <up to 3 monadic elements>: the untouched copy (made by dup, triplicate, a variable, the register "
         "or the global array) must still denote the original value, for eager and lazy values; (c) pre ; push-from-state ; post, where post only changes "
-        "the global array / a variable / the register: the pushed value must denote what the same push denoted when forced immediately (separate run). Non-trivial = distinct (key / program, arguments). "
+        "the global array / a variable / the register: the pushed value must denote what the same push denoted when forced immediately (separate run); (d) inside a scope (lambdas of arity 1..3, reduce / map lambdas, named functions, for loops) the context value n taken after the scope's stack has been changed, or kept in the register / a variable / the global array while it is changed, denotes what n alone denotes. Non-trivial = distinct (key / program, arguments). "
         "The Lean side proves the frame theorem on a reference-level heap model and re-checks the regenerated inventory of in-place mutation sites.")
 TRUSTED = ["T7 element bodies allocate fresh objects and write to nothing that existed before (frame condition): inventory theorem + this snapshot differential"]
 SKIP = {"†", "W", "^", "Ȯ", "„", "‟", "¨ẇ", "x", "Q", "¨U", "□", "¨□", "E", "Ė", "∆ċ", "øḋ", "$", "_", ":", "D", "!"}
@@ -129,7 +129,25 @@ def o_copy(inp):
     return got == want, f"{prog!r}: the untouched copy now denotes {got}, the original value was {want}"
 
 
-ORACLES = {"args_unchanged": o_args, "copy_untouched": o_copy, "held_value": o_held}
+def o_scope(inp):
+    """the context value `n` of a scope (a lambda's arguments, a loop's item, a function's parameters) denotes the same value
+    wherever in the scope it is taken and however long it has been kept in the register / a variable / the global array,
+    whatever the elements in between do to the scope's own stack. Expected = the scope run with `n` alone."""
+    a, b = inp["plain"], inp["prog"]
+    try:
+        with alarm(3):
+            s1, _, _ = vy.run_program(a)
+            want = flat(snap(s1[-1])) if s1 else None
+            s2, _, _ = vy.run_program(b)
+            got = flat(snap(s2[-1])) if s2 else None
+    except Timeout:
+        return True, "timeout"
+    except BaseException as ex:  # noqa: BLE001
+        return True, f"raised {type(ex).__name__}"
+    return got == want, f"{a!r} gives {want}; {b!r}, which only works on the scope's own stack in between, gives {got}"
+
+
+ORACLES = {"args_unchanged": o_args, "copy_untouched": o_copy, "held_value": o_held, "scope_value": o_scope}
 
 VALUES = [0, 1, 2, -1, 5, ["R", 1, 2], "ab", "", ["l", [1, 2, 3]], ["l", []], ["l", [["l", [1, 2]], ["l", [3]]]], ["l", ["a", "bc"]], ["l", [3, 1, 2]],
           ["L", [1, 2, 3]], ["L", []], ["L", [["l", [2, 1]], 4]], ["F", "λ+;"], ["F", "λd;"]]
@@ -192,6 +210,24 @@ def run(ctx, widen=False):
         held = rng.sample(held, 300)
     ctx.bump("(c) held value vs later state change", len(held))
     ctx.check_many("held_value", held)
+    # (d) the context value of a scope, taken late or kept while the scope's stack changes
+    SCOPES = [("3 4 λ2|", ";†"), ("3 4 5 λ3|", ";†"), ("7 λ", ";†"), ("⟨1|2⟩ 7 λ2|", ";†"), ("⟨1|2|3⟩ λ", ";R"), ("⟨4|5⟩ ƛ", ";"),
+              ("⟨⟨1|2⟩|⟨3⟩⟩ ƛ", ";"), ("@f:2|", "; 3 4 @f;"), ("@f:1|", "; ⟨1|2⟩ @f;"), ("2(", ")"), ("⟨⟨5⟩|⟨6|7⟩⟩(", ")"),
+              ("3 4 λ2|1 λ", ";†;†"), ("3 4 λ2|_ ƛ", ";;†"), ("⟨1|2⟩ ⟨3|4⟩ λ2|", ";†")]
+    POSTS = ["+", "7 8 9", "_", "d", "$", "1+", ":", "+ 5", "__ 6", "W", "9 J", "h", "Ṙ", "0 9Ȧ", "L", "^"]
+    KEEP = [("£", "¥"), ("→x", "←x"), ("⅛", "¾t")]
+    scoped = []
+    for sc in SCOPES:
+        op, cl = sc
+        for post in POSTS:
+            body_plain = "n"
+            scoped.append({"plain": op + body_plain + cl, "prog": op + post + " n" + cl})
+            for st, rd in KEEP:
+                scoped.append({"plain": op + body_plain + cl, "prog": op + "n" + st + " " + post + " " + rd + cl})
+    if not thorough:
+        scoped = rng.sample(scoped, 400)
+    ctx.bump("(d) scope value taken late / kept while the scope's stack changes", len(scoped))
+    ctx.check_many("scope_value", scoped)
     ctx.sample({"prog": "⟨1|2|3⟩:0 9Ȧ", "stack": [flat(snap(x)) for x in vy.run_program("⟨1|2|3⟩:0 9Ȧ")[0]]})
     ctx.sample(cases[0])
 
